@@ -27,7 +27,7 @@ META = {
              'non-trivial = grid with >= 2 cells'),
     'min': {'evaluations': 1500, 'distinct': 100,
             'classes': {'grid-dims-not-last': 20, 'wind:axis': 50, 'wind:name': 50, 'wind:default': 50,
-                        'non-grid-refused': 20, 'default-name-collision': 3},
+                        'non-grid-refused': 20, 'default-name-collision': 3, 'partial-grid-refused': 20, 'alias:make_linear': 20},
             'contracts': {'ravel_dimensions': 200, 'wind_dimension': 200}},
     'must_reach': ['emsarray.utils:ravel_dimensions', 'emsarray.utils:wind_dimension'],
     'assumptions': ['numpy transpose/reshape semantics', 'xarray DataArray container semantics'],
@@ -129,6 +129,41 @@ def one_dataset(obs, rng, conv, spec, workdir=None):
             w2 = obs.call('wind(default kind)', ems.wind, flat)
             if not isinstance(w2, Failed):
                 obs.expect(tuple(w2.dims) == want_dims + kind.dims, 'wind with default grid kind')
+        # ---- the deprecated alias make_linear(v) is ravel(v) -------------------------------------
+        if rng.random() < 0.3:
+            import warnings as _w
+            with _w.catch_warnings():
+                _w.simplefilter('ignore')
+                alias = obs.call('make_linear (deprecated alias)', ems.make_linear, da)
+            if not isinstance(alias, Failed):
+                obs.cls('alias:make_linear')
+                obs.expect(tuple(alias.dims) == tuple(flat.dims) and nan_equal(alias.values, want_vals) and alias.values.dtype == da.dtype,
+                           'make_linear(v) == ravel(v)', lambda: {'var': name, 'got_dims': alias.dims, 'want_dims': flat.dims},
+                           mech='alias-differs')
+    # ---- a variable that has only SOME of the dimensions of a grid is not defined on any grid: refused -----------
+    for kname, kind in model.kinds.items():
+        if len(kind.dims) < 2:
+            continue
+        keep = int(rng.integers(len(kind.dims)))
+        dims = [kind.dims[keep]]
+        others = [k for k in model.kinds.values() if k is not kind and len(k.dims) == 2]
+        if others and rng.random() < 0.5:
+            # one dimension of this grid and one of another grid (Arakawa C): still no complete grid
+            other = others[int(rng.integers(len(others)))]
+            dims.append(other.dims[1 - keep])
+        if rng.random() < 0.5:
+            dims.insert(int(rng.integers(len(dims) + 1)), 'extra_axis')
+        shape = [3 if d == 'extra_axis' else int(ds.sizes[d]) for d in dims]
+        partial = xarray.DataArray(model.fresh_ids(tuple(shape)), dims=dims)
+        supersets = [k for k in model.kinds.values() if set(k.dims) <= set(dims)]
+        if supersets:
+            continue
+        r1 = obs.raises('get_grid_kind(variable with only part of a grid)', ems.get_grid_kind, partial, exc_types=(ValueError,),
+                        mech='non-grid-not-refused')
+        r2 = obs.raises('ravel(variable with only part of a grid)', ems.ravel, partial, exc_types=(ValueError,),
+                        mech='non-grid-not-refused')
+        if r1 is not None and r2 is not None:
+            obs.cls('partial-grid-refused')
     # ---- winding arbitrary linear data -----------------------------------------------------------
     for kname, kind in model.kinds.items():
         token = model.kind_token(kname)
